@@ -48,6 +48,8 @@ def check(ctx):
     from . import c02
     c02.scan_rules(ctx, P)
     c02.sentinel_tests(ctx, P)
+    from . import c13
+    c13.renege_leaves_class_change_cache(ctx, P, views, iters)
     from ..rules import Pairing, check_pairing
     obp = ctx.ob("R2.pop", "node population counter changes exactly with individuals[*] on every path of every method (a drifting counter ends in list.remove / index errors)")
     check_pairing(ctx, obp, P, views, Pairing("number_of_individuals", "individuals", "R2.population", "population counter vs individuals[*]"), loop_iters=iters)
